@@ -376,13 +376,17 @@ Corollary side_boxes_do_not_overlap avail a b c gen_b :
     let '(pa, pb, pc) := side_positions avail a' b' c' in
     0 <= pa /\ pc + outer_of c' <= avail /\
     (gen_b = true -> pa + outer_of a' <= pb /\ pb + outer_of b' <= pc) /\
-    (gen_b = false -> pa + outer_of a' <= pc).
+    (gen_b = false -> pa + outer_of a' <= pc) /\
+    (0 <= outer_of a' -> 0 <= outer_of b' -> 0 <= outer_of c' ->
+       pa + outer_of a' <= avail /\ 0 <= pc /\ (gen_b = true -> 0 <= pb /\ pb + outer_of b' <= avail)).
 Proof.
   intros Ca Cb Cc Hb Hfit.
   destruct (three_boxes_fit_when_possible avail a b c gen_b Ca Cb Cc Hb Hfit) as [a' [b' [c' [E H]]]].
   exists a', b', c'. split; [exact E|]. unfold side_positions. destruct gen_b.
-  - destruct H as [H1 H2]. split; [lra|]. split; [lra|]. split; [intros _; split; lra|intros; discriminate].
-  - split; [lra|]. split; [lra|]. split; [intros; discriminate|intros _; lra].
+  - destruct H as [H1 H2]. split; [lra|]. split; [lra|]. split; [intros _; split; lra|].
+    split; [intros; discriminate|]. intros Pa Pb Pc. split; [lra|]. split; [lra|]. intros _. split; lra.
+  - split; [lra|]. split; [lra|]. split; [intros; discriminate|]. split; [intros _; lra|].
+    intros Pa Pb Pc. split; [lra|]. split; [lra|]. intros; discriminate.
 Qed.
 
 (* when even the outer max-content sizes fit with room to spare, auto boxes get their max-content size: the
